@@ -38,6 +38,30 @@ type Plan struct {
 	ConfirmCap      int // fresh confirmations per (form, mode, configuration)
 }
 
+func (p *Plan) modeApplies(cfg Config, mode string) bool {
+	if ms, ok := p.DiagModes[cfg.Diag]; ok && cfg.Diag != "" {
+		for _, m := range ms {
+			if m == mode {
+				return true
+			}
+		}
+
+		return false
+	}
+
+	if len(p.ComboModes) == 0 || cfg.Deviations() <= 1 {
+		return true
+	}
+
+	for _, m := range p.ComboModes {
+		if m == mode {
+			return true
+		}
+	}
+
+	return false
+}
+
 // Witness is a self-contained failing case.
 type Witness struct {
 	Kind     string   `json:"kind"` // program | corpus
@@ -648,6 +672,10 @@ func (e *engine) runGroup(gi int, byID map[int]*Prog) []candidate {
 
 	for ci, cfg := range g.Configs {
 		for _, mode := range e.plan.Modes {
+			if !e.plan.modeApplies(cfg, mode) {
+				continue
+			}
+
 			fs := sets[mode][0]
 			if cfg.Diag == "debug" {
 				fs = sets[mode][1]
